@@ -39,13 +39,16 @@ func TestC04(t *testing.T) {
 			continue
 		}
 		responder := []string{"real", "real", "scripted", "silent"}[r.Intn(4)]
-		trigger := []string{"completion", "ctx-cancel", "api-cancel"}[r.Intn(3)]
+		trigger := []string{"completion", "ctx-cancel", "api-cancel", "api-then-ctx-cancel", "completion-then-ctx-cancel"}[r.Intn(5)]
+		if trigger == "completion-then-ctx-cancel" && responder == "silent" {
+			trigger = "api-then-ctx-cancel"
+		}
 		if responder == "silent" && trigger == "completion" {
 			trigger = "ctx-cancel"
 		}
 		position := []string{"queued", "after-messages", "after-messages", "after-terminal", "immediately"}[r.Intn(5)]
 		extra := []string{"none", "none", "none", "pause-then-cancel", "response-hook-error", "block-hook-error", "send-fail-request", "send-fail-all"}[r.Intn(8)]
-		if trigger == "completion" {
+		if trigger == "completion" || trigger == "completion-then-ctx-cancel" {
 			position = "n/a"
 			if extra == "pause-then-cancel" {
 				extra = "none"
@@ -137,7 +140,7 @@ func TestC04(t *testing.T) {
 			}
 		}
 		held := false
-		if position == "after-messages" && trigger != "completion" {
+		if position == "after-messages" && trigger != "completion" && trigger != "completion-then-ctx-cancel" {
 			back.CloseGate(j) // the responder is then held by the fabric: completion is impossible
 			held = true
 		}
@@ -152,7 +155,7 @@ func TestC04(t *testing.T) {
 		req := w.RequestWithID(id, A, to, d.Root, sel)
 		inc := ""
 		// scripted responder: j partial messages following the true traversal, then the terminal code
-		if responder == "scripted" && trigger == "completion" {
+		if responder == "scripted" && (trigger == "completion" || trigger == "completion-then-ctx-cancel") {
 			if ok, why := w.Quiesce(); !ok {
 				inc = why
 			}
@@ -177,10 +180,13 @@ func TestC04(t *testing.T) {
 		cancelIssued := int64(0)
 		doCancel := func() {
 			cancelIssued = w.Log.Add("cancel-issued", "A", "kind=%s", trigger)
-			if trigger == "ctx-cancel" {
+			if trigger == "ctx-cancel" || trigger == "completion-then-ctx-cancel" {
 				req.Cancel()
 				atomic.StoreInt32(&cancelReturned, 1)
 			} else {
+				if trigger == "api-then-ctx-cancel" {
+					defer req.Cancel()
+				}
 				go func() {
 					ctx, c := context.WithTimeout(context.Background(), 120*time.Second)
 					cancelErr = A.GS.Cancel(ctx, id)
@@ -189,7 +195,13 @@ func TestC04(t *testing.T) {
 				}()
 			}
 		}
-		if trigger != "completion" {
+		if trigger == "completion-then-ctx-cancel" {
+			// the context is cancelled right behind the terminal status (racing with its processing)
+			if r.Intn(2) == 0 {
+				time.Sleep(time.Duration(r.Intn(500)) * time.Microsecond)
+			}
+			doCancel()
+		} else if trigger != "completion" {
 			switch position {
 			case "immediately":
 			case "after-terminal":
@@ -241,17 +253,17 @@ func TestC04(t *testing.T) {
 				}
 			}
 		}
-		triggered := trigger != "completion" || terminalDelivered || atomic.LoadInt32(&hookFired) == 1
+		triggered := (trigger != "completion") || terminalDelivered || atomic.LoadInt32(&hookFired) == 1
 		switch {
 		case inc != "" || state == "inconclusive":
 			rep.Inconclusive("case %d: %s %s", ci, inc, state)
 		case triggered && state != "done":
 			rep.Violation(ci, "C04/channels-not-closed", fmt.Sprintf("trigger (%s/%s/%s) happened and the consumer keeps reading, but at quiescence a result channel is still open", trigger, position, extra), detail())
-		case trigger == "api-cancel" && atomic.LoadInt32(&cancelReturned) == 0:
+		case (trigger == "api-cancel" || trigger == "api-then-ctx-cancel") && atomic.LoadInt32(&cancelReturned) == 0:
 			rep.Violation(ci, "C04/cancel-call-never-returned", "the cancel API call did not return although the system is quiescent", detail())
 		default:
 			// (b) cancellation while completion was impossible
-			impossible := trigger != "completion" && (held && j < 2 || responder == "silent" || position == "queued" || (extra == "send-fail-all"))
+			impossible := trigger != "completion" && trigger != "completion-then-ctx-cancel" && (held && j < 2 || responder == "silent" || position == "queued" || (extra == "send-fail-all"))
 			if impossible && position != "after-terminal" {
 				if !hasErr(func(e error) bool { var ce graphsync.RequestClientCancelledErr; return errors.As(e, &ce) }) {
 					// a hook error that fired first is also a legitimate terminal outcome
